@@ -183,6 +183,7 @@ class CRTWorld:
         self.scenario = sc
         self.sim = kernel.Sim(chooser, max_steps=sc.get('max_steps', 60000))
         self.faults = FaultPlan(sc.get('faults') or [], self)
+        self.shutdown_started = False
         self.fs = SimFS(self)
         self.osutil = None
         self.violations = []
@@ -245,8 +246,15 @@ class CRTWorld:
                 if not self.pending and self.driver_finished:
                     return
                 continue
-            k = sim.choose(len(self.pending), 'crt.pick')
-            req = self.pending.pop(k)
+            # a request marked slow stays in flight until shutdown has begun
+            ready = [r for r in self.pending
+                     if self.shutdown_started or not self.transfers[r.idx]['spec'].get('slow')]
+            if not ready:
+                sim.wait_until_step(sim.steps + 40)
+                continue
+            k = sim.choose(len(ready), 'crt.pick')
+            req = ready[k]
+            self.pending.remove(req)
             self._complete(req)
 
     def _complete(self, req):
@@ -461,6 +469,7 @@ class CRTWorld:
             elif op == 'result':
                 self._collect(self.transfers[a[1]])
             elif op == 'shutdown':
+                self.shutdown_started = True
                 mgr.shutdown(a[1] if len(a) > 1 else False)
                 self.shutdown_return = sim.stamp()
             elif op == 'with_raise':
@@ -618,6 +627,26 @@ def evaluate(w):
 
 def generate(prop, seed):
     rng = random.Random(seed)
+    if rng.random() < 0.004:
+        # more submissions than the manager's 128 permits over its lifetime, one
+        # early transfer still in flight when shutdown begins
+        n = rng.randint(129, 136)
+        transfers = [{'type': 'delete', 'outcome': 'ok', 'size': 0, 'nsubs': 1, 'chunk': 1,
+                      'partial': 0} for _ in range(n)]
+        slow = rng.randrange(0, n - 128)
+        transfers[slow]['slow'] = True
+        if rng.random() < 0.5:
+            transfers[slow]['type'] = 'download'
+            transfers[slow]['dst'] = 'path'
+            transfers[slow]['prev'] = None
+            transfers[slow]['size'] = 3
+        est = 120 + 80 * n
+        return {'permits': rng.choice([2, 3]), 'loops': rng.choice([1, 2]),
+                'transfers': transfers, 'faults': [],
+                'driver': [['submit', i] for i in range(n)] + [['shutdown']],
+                'translate': False, 'strategy': gen_strategy(rng, est),
+                'sched_seed': rng.randrange(1 << 62), 'fs_seed': rng.randrange(1 << 30),
+                'max_steps': 80 * est + 20000, 'seed': seed, 'prop': prop}
     permits = rng.choice([1, 1, 2, 3])
     n = rng.randint(1, 6)
     transfers = []
